@@ -54,7 +54,7 @@ Lists ==
 SmallLists ==
     {<<>>, <<BadLine>>, <<SkipLine, BadLine>>} \cup {<<CidrOf(a)>> : a \in 1 .. NC}
 
-NoQ == [cap |-> 0, port |-> 0, cip |-> NoIp, bl |-> TRUE, pool |-> <<>>]
+NoQ == [cap |-> 0, port |-> 0, cip |-> NoIp, bl |-> TRUE, pool |-> <<>>, moved |-> FALSE]
 
 BlInit == rules = {} /\ lines = <<>> /\ qc = NoQ /\ q = {} /\ out = NoOut
 \* Every list of Lists is loaded: the special and single-line lists directly on the empty blocklist,
@@ -92,7 +92,7 @@ QPool == <<
     PA(32512, 1, 6881, 4, FALSE),       \* 7  127.0.0.1:6881  loopback, listening port
     PA(2569, 2055, 7000, 3, FALSE),     \* 8  10.9.8.7:7000   client IP, other port (may be dropped)
     PA(2561, 1, 1000, 5, FALSE) >>      \* 9  twin of 1 (same ip:port, another object)
-QCfg == [cap |-> CAP, port |-> 6881, cip |-> <<2569, 2055>>, bl |-> TRUE, pool |-> QPool]
+QCfg == [cap |-> CAP, port |-> 6881, cip |-> <<2569, 2055>>, bl |-> TRUE, pool |-> QPool, moved |-> FALSE]
 QLists == {<<>>, <<Cidr(<<2561, 256>>, 30)>>}
 QSrc == {0, 1}
 Batches == {<<a>> : a \in 1 .. Len(QPool)}
@@ -101,7 +101,7 @@ Batches == {<<a>> : a \in 1 .. Len(QPool)}
 QInit == rules = {} /\ lines = <<>> /\ qc = QCfg /\ q = {} /\ out = NoOut
 QNext ==
     \/ \E b \in Batches, s \in QSrc :
-          \E new \in SUBSET (q \cup {[a |-> x, s |-> s] : x \in SeqSet(b)}) : Push(b, s, new)
+          \E new \in SUBSET (q \cup {Elem(x, s) : x \in SeqSet(b)}) : Push(b, s, new)
     \/ IF ASIS THEN \E e \in q : PopAsIs(e.a, e.s)
                ELSE \E r \in Addr \cup {0}, s \in QSrc, new \in SUBSET q : Pop(r, s, new)
     \/ Reset
